@@ -210,7 +210,44 @@ pub open spec fn step_acts_ok<'a>(acts: Seq<&'a ExprGroup<ActionExpr>>) -> bool 
         }
 }
 
+pub proof fn lemma_wdepth_step<'a>(acts: Seq<&'a ExprGroup<ActionExpr>>, n: int)
+    requires step_acts_ok(acts), 0 <= n < acts.len(),
+    ensures
+        wdepth(acts, n + 1) == wdepth(acts, n) + match acts[n].action.move_type { MoveType::Wrap => 1int, MoveType::Unwrap => -1int, MoveType::None => 0int },
+        wdepth(acts, n + 1) >= 0, wdepth(acts, n) >= 0,
+{
+    assert(wdepth(acts, n + 1) >= 0);
+    assert(wdepth(acts, n) >= 0);
+}
+
 /// invariant of the fold over a step's actions: the stack is well formed and as deep as the open wrappers
 pub open spec fn frame_inv<'a>(st: Seq<(TokenStream, Option<ActionExprPos<'a>>)>, acts: Seq<&'a ExprGroup<ActionExpr>>, n: int) -> bool {
     stack_wf(st) && st.len() == 1 + wdepth(acts, n)
+}
+
+// ---------------------------------------------------------------- C03: where a step begins (JoinOutput::new, R15)
+
+pub open spec fn deep<'a>(v: Seq<Vec<&'a ExprGroup<ActionExpr>>>) -> Seq<Seq<&'a ExprGroup<ActionExpr>>> {
+    Seq::new(v.len(), |i: int| v[i]@)
+}
+
+/// the steps of a branch: a new step begins at every member carrying the `~` mark (Deferred), and nowhere else;
+/// members keep their order
+pub open spec fn split_steps<'a>(ms: Seq<ExprGroup<ActionExpr>>, n: int) -> Seq<Seq<&'a ExprGroup<ActionExpr>>>
+    decreases n
+{
+    if n <= 0 { seq![Seq::<&'a ExprGroup<ActionExpr>>::empty()] }
+    else {
+        let prev = split_steps(ms, n - 1);
+        if ms[n - 1].action.application_type == ApplicationType::Deferred { prev.push(seq![&ms[n - 1]]) }
+        else { prev.update(prev.len() - 1, prev.last().push(&ms[n - 1])) }
+    }
+}
+
+pub proof fn lemma_split_nonempty(ms: Seq<ExprGroup<ActionExpr>>, n: int)
+    requires 0 <= n,
+    ensures split_steps(ms, n).len() >= 1, split_steps(ms, n).len() <= n + 1,
+    decreases n,
+{
+    if n > 0 { lemma_split_nonempty(ms, n - 1); }
 }
